@@ -31,7 +31,26 @@ mod cluster;
 use common::Tier;
 
 fn main() {
-    let args: Vec<String> = std::env::args().collect();
+    let mut args: Vec<String> = std::env::args().collect();
+    if args.len() == 3 && args[1] == "replay" {
+        // vcheck replay <replay file>: re-execute a recorded BFS schedule (twice) without exploring
+        let body: serde_json::Value = match std::fs::read_to_string(&args[2]).ok().and_then(|t| serde_json::from_str(&t).ok()) {
+            Some(b) => b,
+            None => {
+                eprintln!("cannot read replay file {}", args[2]);
+                std::process::exit(2);
+            }
+        };
+        let prop = body["property"].as_str().unwrap_or("").to_string();
+        let rep = &body["replay"];
+        if rep["engine"].as_str() != Some("bfs") {
+            println!("{} records the failing input of an enumeration check, not a schedule; it is reproduced by running the check (./check {prop} quick), the input is:\n{}", args[2], serde_json::to_string_pretty(rep).unwrap());
+            std::process::exit(0);
+        }
+        let actions: Vec<u16> = rep["actions"].as_array().map(|a| a.iter().filter_map(|x| x.as_u64().map(|n| n as u16)).collect()).unwrap_or_default();
+        let _ = common::REPLAY.set(common::ReplayReq { label: rep["system"].as_str().unwrap_or("").to_string(), actions });
+        args = vec![args[0].clone(), prop, "thorough".to_string()];
+    }
     if args.len() < 3 {
         eprintln!("usage: vcheck <ID> <quick|thorough>");
         std::process::exit(2);
@@ -69,6 +88,23 @@ fn main() {
             }
         }
     };
+    if common::replay_req().is_some() {
+        let res = common::REPLAY_RESULTS.lock().unwrap();
+        if res.is_empty() {
+            println!("REPLAY: no system of {id} matches the recorded label (was the check's alphabet changed since the file was written?)");
+            std::process::exit(2);
+        }
+        let mut reproduced = false;
+        for (label, k1, k2, same_digest) in res.iter() {
+            if k1 != k2 || !same_digest {
+                println!("MACHINERY-FAILURE: the two replays on {label} disagree ({k1:?} vs {k2:?}, digests equal: {same_digest})");
+                std::process::exit(2);
+            }
+            println!("REPLAY system={label}: both runs identical; violations at the last step: {k1:?}");
+            reproduced |= !k1.is_empty();
+        }
+        std::process::exit(if reproduced { 1 } else { 0 });
+    }
     std::process::exit(code);
 }
 
